@@ -1131,6 +1131,13 @@ class Interp:
                 if res and t is not None:
                     t["hits"].add(item.v)
                 return res
+        def _builtin_class(x):
+            # a class of builtins / datetime, by its name (type(<a datetime constant>) and datetime.datetime are the same class)
+            if isinstance(x, Fn) and x.kind == "lib" and (str(x.name).startswith("builtins.") or str(x.name) in ("datetime.datetime", "datetime.date", "datetime.time", "datetime.timedelta")):
+                return str(x.name).rsplit(".", 1)[-1]
+            return None
+        if isinstance(coll, (ListLit, TupS, SetS)) and _builtin_class(item) and all(_builtin_class(x) for x in coll.elts):
+            return _builtin_class(item) in [_builtin_class(x) for x in coll.elts]  # `type(x) in (int, float, str)`
         if isinstance(coll, DictS) and isinstance(item, Const):
             if item.v in coll.items:
                 if t is not None:
